@@ -163,5 +163,5 @@ Lemma zero_diffraction_instance z :
   Rabs 1 * (4 / sqrt (Sig 4e-6 9e-6 6.25e-6 * Sig 4e-6 9e-6 6.25e-6)) *
   exp (- (0.00007 * 0.00007 * (4e-6 + 9e-6) / Sig 4e-6 9e-6 6.25e-6) * ((1 + z) * (1 + z))).
 Proof.
-  apply (closure_zero_diffraction_modulus (fun _ => 1) 6.25e-6 6.25e-6 4e-6 9e-6 0.00007 0.3 1.5 2 z); lra.
+  exact (closure_zero_diffraction_modulus (fun _ => 1) 6.25e-6 6.25e-6 4e-6 9e-6 0.00007 0.3 1.5 2 z ltac:(lra) ltac:(lra) ltac:(lra) ltac:(lra)).
 Qed.
